@@ -34,6 +34,9 @@ type funcHints struct {
 	Params   []string    `json:"params"`
 	Results  []string    `json:"results"`
 	FreeVars []string    `json:"freevars"`
+	// FreeVarTypes: the types of the captured variables (a closure that captures
+	// the same variables in another order, or under other names, is re-bound by type)
+	FreeVarTypes []string `json:"freevartypes,omitempty"`
 	Locals   []localHint `json:"locals"`
 	// RangeVars: the key / value variables of the N-th loop (source order) when
 	// it is a range loop. If the loop is later rewritten without them (`for i :=
@@ -78,6 +81,7 @@ func hintsOf(fn *ssa.Function) *funcHints {
 	}
 	for _, fv := range fn.FreeVars {
 		h.FreeVars = append(h.FreeVars, fv.Name())
+		h.FreeVarTypes = append(h.FreeVarTypes, types.TypeString(fv.Type(), nil))
 	}
 	h.Closures = closureHintsOf(fn)
 	syn := fn.Syntax()
@@ -239,7 +243,42 @@ func nameAliases(name string, fn *ssa.Function) map[string]string {
 	}
 	byIndex(old.Params, cur.Params)
 	byIndex(old.Results, cur.Results)
-	byIndex(old.FreeVars, cur.FreeVars)
+	if len(old.FreeVarTypes) == len(old.FreeVars) && len(cur.FreeVarTypes) == len(cur.FreeVars) {
+		// captured variables: by type (capture order follows first use and changes
+		// with harmless edits); a renamed variable is the only one of its type that
+		// is new, standing for the only one of that type that is gone
+		curNames := map[string]bool{}
+		for _, n := range cur.FreeVars {
+			curNames[n] = true
+		}
+		oldNames := map[string]bool{}
+		for _, n := range old.FreeVars {
+			oldNames[n] = true
+		}
+		for i, o := range old.FreeVars {
+			if curNames[o] || have[o] {
+				continue
+			}
+			cand, goneSame := "", 0
+			for j, o2 := range old.FreeVars {
+				if !curNames[o2] && old.FreeVarTypes[j] == old.FreeVarTypes[i] {
+					goneSame++
+				}
+			}
+			n := 0
+			for j, cn := range cur.FreeVars {
+				if !oldNames[cn] && cur.FreeVarTypes[j] == old.FreeVarTypes[i] {
+					cand = cn
+					n++
+				}
+			}
+			if n == 1 && goneSame == 1 {
+				al[o] = cand
+			}
+		}
+	} else {
+		byIndex(old.FreeVars, cur.FreeVars)
+	}
 	oldNames := map[string]bool{}
 	for _, l := range old.Locals {
 		oldNames[l.Name] = true
